@@ -759,12 +759,19 @@ cdef class QobjEvo:
 
     def tidyup(self, atol=1e-12):
         """Removes small elements from quantum object."""
+        # The operators are shared with the copies of this object and with
+        # the objects it was built from: tidy up copies of them.
+        new_elements = []
         for element in self.elements:
             if type(element) is _ConstantElement:
-                element = _ConstantElement(element.qobj(0).tidyup(atol))
+                element = _ConstantElement(
+                    element.qobj(0).copy().tidyup(atol)
+                )
             elif type(element) is _EvoElement:
-                element = _EvoElement(element.qobj(0).tidyup(atol),
+                element = _EvoElement(element.qobj(0).copy().tidyup(atol),
                                       element._coefficient)
+            new_elements.append(element)
+        self.elements = new_elements
         return self
 
     def linear_map(self, op_mapping, *, _skip_check=False):
